@@ -75,7 +75,7 @@ Lemma fire_out s : out (fire_pbars (fire_cbars s)) = out s.
 Proof. destruct (fire_cbars_frame s) as [_ B]. destruct (fire_pbars_frame (fire_cbars s)) as [_ D]. congruence. Qed.
 
 Lemma fold_add_shard_out c ref : forall shards s, out (fold_left (fun s sh => add_shard s c ref sh) shards s) = out s.
-Proof. induction shards as [|sh r IH]; intros s; cbn [fold_left]; [reflexivity|]. rewrite IH. apply add_shard_clock. Qed.
+Proof. induction shards as [|sh r IH]; intros s; cbn [fold_left]; [reflexivity|]. rewrite IH. apply add_shard_out. Qed.
 
 Lemma step_contrib retries s l : CInv s -> feed_safe s l ->
   out (step retries s l) = out s
@@ -83,7 +83,7 @@ Lemma step_contrib retries s l : CInv s -> feed_safe s l ->
 Proof.
   intros I Hsafe. unfold step. rewrite fire_out. destruct l as [c|c pid pname th|c cname spch p answers|cs|c spchs|ns nt].
   - left. destruct (zmem _ _); [reflexivity|]. destruct (zlookup _ _); [reflexivity|]. destruct (pairing c) as [shards|]; [|reflexivity].
-    match goal with |- out (settle ?x) = _ => destruct (settle_same_clk x) as [_ ->] end.
+    match goal with |- out (settle ?x) = _ => destruct (settle_rel x) as [_ ->] end.
     rewrite fold_add_shard_out. reflexivity.
   - left. repeat dm; reflexivity.
   - cbn [feed_safe] in Hsafe. destruct Hsafe as [Hb Hw].
